@@ -2,7 +2,7 @@
 """Rewrite the table of seeded changes in DESIGN.md (between the SEEDTABLE markers) from seeded/*/meta.json."""
 import json, glob, os, re
 ROOT = os.path.dirname(os.path.abspath(__file__))
-rows = ["| seeded change | property | what it does | needs | checks run → outcome |", "|---|---|---|---|---|"]
+rows = ["| seeded change | property | what it does | needs | checks run → outcome (first run; then the re-check of all kept changes against the final machinery) |", "|---|---|---|---|---|"]
 for d in sorted(glob.glob(os.path.join(ROOT, "seeded", "*"))):
     mp = os.path.join(d, "meta.json")
     if not os.path.exists(mp):
@@ -21,6 +21,15 @@ for d in sorted(glob.glob(os.path.join(ROOT, "seeded", "*"))):
         else:
             o = "caught (concrete)"
         outs.append("%s: %s" % (cid, o))
+    rc = m.get("recheck")
+    if rc:
+        if not rc.get("applies"):
+            outs.append("re-check at %s: patch no longer applies (the repaired code moved)" % rc.get("repo_head"))
+        else:
+            det = rc.get("detected_by") or []
+            outs.append("re-check at %s: %s" % (rc.get("repo_head"), ("caught by " + ", ".join(det)) if det else "NOT caught"))
+    if (m.get("validation") or {}).get("valid") is False:
+        outs.append("not kept as valid: " + cell((m.get("validation") or {}).get("why", ""), 80))
     rows.append("| `%s` | %s | %s | %s | %s |" % (os.path.basename(d), m.get("property", ""), cell(m.get("summary", ""), 260), cell(m.get("needs", ""), 200), "; ".join(outs) or "—"))
 p = os.path.join(ROOT, "DESIGN.md")
 s = open(p).read()
